@@ -29,7 +29,7 @@ from mc.ref import ndn_strict as ns
 
 PROPERTY = 'C17'
 
-PREFIXES = ['/app/a', '/app/b/c']
+PREFIXES = ['/app/a', '/app/b/c', '/', '/' + 'x' * 253]      # index 2: the root prefix (empty name); index 3: a long component
 ANS_FULL = ['200', '200-nobody', '400', '400-nobody', '403-nobody', '500', 'garbage', 'wrongtype', 'nack', 'silence', 'invalid']
 ANS_SHORT = ['200', '403-nobody', 'nack', 'silence']
 ANS_TINY = ['200', 'silence', 'nack']
@@ -341,7 +341,9 @@ def judge(fe_name, calls, answers, run, local=True, drift=0):
         stamps.append(stamp)
     calls = [(verb.split('+')[0], pi) for verb, pi in calls]      # 'register+reject': register with a route validator (legacy)
     want = sorted((verb, PREFIXES[pi]) for verb, pi in calls)
-    if sorted(x for x in seen if x) != want and len(cmds) == len(calls):
+    if any(x is not None and x[1] is None for x in seen):
+        viol.append((f'C17|{fe_name}|command-without-name', f'a command carries no Name in its ControlParameters: {seen} for calls {want}'))
+    elif sorted((x for x in seen if x), key=repr) != sorted(want, key=repr) and len(cmds) == len(calls):
         viol.append((f'C17|{fe_name}|command-target', f'commands {seen} for calls {want}'))
     for a, b in zip(stamps, stamps[1:]):
         if a is not None and b is not None and not b > a:
@@ -421,6 +423,10 @@ def extra_cases():
     for fe in ('v2', 'legacy'):
         for mix in ([('register', 0)], [('unregister', 0)], [('register', 0), ('unregister', 1)]):
             out.append((fe, mix, ['200'] * len(mix), False, 0))
+        # the root prefix and a prefix with a long component
+        for pi in (2, 3):
+            for mix in ([('register', pi)], [('unregister', pi)], [('register', pi), ('register', 0)]):
+                out.append((fe, mix, ['200'] * len(mix), True, 0))
         if fe == 'legacy':
             for ans in ('200', 'invalid', '403-nobody'):
                 for rv in ('register+reject', 'register+accept'):
@@ -465,18 +471,27 @@ def run_routes(fe_name):
             app.route('/r/one')(lambda n, p, ap: None)
             app.route('/r/two')(lambda n, p, ap: None)
         per_conn = []
-        for conn in range(2):
+        declared = ['/r/one', '/r/two']
+        for conn in range(3):
             before = len(cmds)
             main = loop.create_task(app.main_loop())
             loop.settle()
+            if conn == 0:
+                # a route declared while connected is registered at once and belongs to the routes of later connections too
+                if fe_name == 'v2':
+                    app.route('/r/three')(lambda n, ap, reply, ctx: None)
+                else:
+                    app.route('/r/three')(lambda n, p, ap: None)
+                declared.append('/r/three')
+                loop.settle()
             targets = []
             for w in cmds[before:]:
                 v, vp, _ = check_command(fe_name, w, None)
                 viol.extend(v)
                 targets.append(vp)
             per_conn.append(targets)
-            if sorted(t for t in targets if t) != [('register', '/r/one'), ('register', '/r/two')]:
-                viol.append((f'C17|{fe_name}|routes|connection-{conn}', f'connection {conn}: register commands {targets}'))
+            if sorted(t for t in targets if t) != sorted(('register', d) for d in declared):
+                viol.append((f'C17|{fe_name}|routes|connection-{conn}', f'connection {conn}: register commands {targets}, declared routes {declared}'))
             app.shutdown()
             loop.settle()
             if not main.done() or (main.exception() if not main.cancelled() else None):
@@ -554,7 +569,9 @@ def plan(tier, seed):
     cases = sched_cases(tier)
     for k in range(0, len(cases), 6):
         units.append({'kind': 'sched', 'lo': k, 'hi': min(len(cases), k + 6), 'tier': tier, 'd': d})
-    units.append({'kind': 'extra', 'd': d, 'tier': tier})
+    n_extra = len(extra_cases())
+    for lo in range(0, n_extra, 3):
+        units.append({'kind': 'extra', 'd': d, 'tier': tier, 'lo': lo, 'hi': min(n_extra, lo + 3)})
     units.append({'kind': 'phase'})
     units.append({'kind': 'typed'})
     for fe in ('v2', 'legacy'):
@@ -596,7 +613,7 @@ def unit(arg):
                 explore(factory, script, arg['d'], on_run)
         acc.max_dev_completed = arg['d']
     elif arg['kind'] == 'extra':
-        for fe, calls, answers, local, drift in extra_cases():
+        for fe, calls, answers, local, drift in extra_cases()[arg.get('lo', 0):arg.get('hi', None)]:
             factory = lambda loop, trace: RegScenario(loop, trace, fe, calls, answers, local, drift)  # noqa
             for script in scripts_for(len(calls), arg['tier']):
                 def on_run(run, script=script):
